@@ -239,6 +239,11 @@ def _strategy():
         for wc in hist["watchers"]:
             if wc["numprocesses"] == 0:
                 wc["numprocesses"] = 1
+            plain = [sp["name"] for sp in socks if not sp.get("reuseport")]
+            if plain and draw(st.integers(0, 3)) == 0:
+                # the named socket is placed on the workers' fd 0; this is
+                # independent of use_sockets
+                wc["stdin_socket"] = draw(st.sampled_from(plain))
             if draw(st.integers(0, 3)) > 0:
                 wc["use_sockets"] = True
                 refs = []
